@@ -108,7 +108,8 @@ def check_stack(rec, cands, xfs, nc, rng, n_random=200, flavour=('list', 'int'))
         else:
             from rsatoolbox.inference.noise_ceiling import cv_noise_ceiling
             _, test_set, ceil_set = CVS.call_generator(rec['case'], rd, flavour)
-            lo, up = cv_noise_ceiling(rd, ceil_set, test_set, method=m, pattern_descriptor=(rec['case']['byP'] or 'index'))
+            with Tap() as tap:
+                lo, up = cv_noise_ceiling(rd, ceil_set, test_set, method=m, pattern_descriptor=(rec['case']['byP'] or 'index'))
         pooled = pool_rdm(rd, method=m)
     except S.DrawMismatch as ex:
         from harness.core import MachineryError
@@ -129,17 +130,8 @@ def check_stack(rec, cands, xfs, nc, rng, n_random=200, flavour=('list', 'int'))
             return False            # exact half-integers: a constant mean-rank vector scores exactly 0
         return np.sqrt(v @ v) < 1e-9
     degenerate = zero_pool(rec['all']) or any(zero_pool(f['stat']) for f in rec['loo'])
-    if api == 'cv' and not degenerate and m != 'rho-a':
-        # the upper prediction is cut to the test conditions: it may vanish (be constant) there
-        kp_ = k_pool(rec['all'])
-        full_ = np.full(L, np.nan)
-        full_[present] = kp_
-        for f in rec['loo']:
-            pos = np.array([tok_pos(t, nc) for t in f['tt'] if t != S.NAN], dtype=int)
-            v = full_[pos][~np.isnan(full_[pos])]
-            if m in ('corr', 'corr_cov'):
-                v = v - v.mean()
-            degenerate = degenerate or np.sqrt(v @ v) < 1e-9
+    if api == 'cv':
+        degenerate = degenerate or any(zero_pool(f['ustat']) for f in rec['loo'])
     stats['degenerate'] = bool(degenerate)
     # ---- the pooled RDM is Pool(method, rows): Normalise, then NaN-aware mean (rank BEFORE mean)
     pv = pooled.get_vectors()[0]
@@ -156,16 +148,18 @@ def check_stack(rec, cands, xfs, nc, rng, n_random=200, flavour=('list', 'int'))
     elif not np.allclose(a, b, rtol=0, atol=1e-11 * max(1.0, np.abs(b).max())):
         out.append((f'C07/{d_or("a")}/pool_rdm/{m}/value', 'pool_rdm differs from NanMean o Normalise of the specification',
                     _case(rec, pooled=got.tolist(), spec=kp.tolist())))
+    def at(f):
+        # positions (in the source condensed vector) of the fold's test entries that are present
+        pos = np.array([tok_pos(t, nc) for t in f['tt'] if t != S.NAN], dtype=int)
+        return pos[~np.isnan(val[0][pos])]
     # ---- the bounds are the leave-one-out / pooled similarities (value oracle; cosine, corr, rho-a)
     if m in OPT and not degenerate:
         full = np.full(L, np.nan)
         full[present] = kp
-
-        def at(f):
-            # positions (in the source condensed vector) of the fold's test entries that are present
-            pos = np.array([tok_pos(t, nc) for t in f['tt'] if t != S.NAN], dtype=int)
-            return pos[~np.isnan(val[0][pos])]
-        ku = np.mean([np.mean([k_sim(m, full[at(f)], val[r - 1][at(f)]) for r in f['test']]) for f in rec['loo']])
+        if api == 'cv':     # per fold: all data RDMs at the test conditions, pooled
+            ku = np.mean([np.mean([k_sim(m, k_pool(f['ustat']), val[r - 1][at(f)]) for r in f['test']]) for f in rec['loo']])
+        else:
+            ku = np.mean([np.mean([k_sim(m, full[at(f)], val[r - 1][at(f)]) for r in f['test']]) for f in rec['loo']])
         kl = np.mean([np.mean([k_sim(m, k_pool(f['stat']), val[r - 1][at(f)]) for r in f['test']]) for f in rec['loo']])
         if m == 'rho-a' and api == 'boot':
             n = len(present)
@@ -176,18 +170,19 @@ def check_stack(rec, cands, xfs, nc, rng, n_random=200, flavour=('list', 'int'))
                 raise MachineryError(f'kernel disagrees with the exact rho-a value of the specification: {rec}')
         if abs(up - ku) > TOL:
             out.append((f'C07/{d_or("a")}/{fn}/{m}/upper-value',
-                        'upper bound is not the average similarity of Pool(all RDMs) to the data RDMs',
+                        'upper bound is not the average similarity of Pool(all RDMs [cv: at the test conditions]) to the data RDMs',
                         _case(rec, upper=up, spec=float(ku))))
         if abs(lo - kl) > TOL:
             out.append((f'C07/{d_or("b")}/{fn}/{m}/lower-value',
                         'lower bound is not the average over left-out groups of sim(Pool(other groups), left-out RDMs)',
                         _case(rec, lower=lo, spec=float(kl))))
     # ---- a: the pooled RDM attains the bound, no candidate is above it
-    if singleton and m in OPT and api == 'boot':
-        att = float(np.mean(compare(pooled, rd, method=m)))
-        if abs(att - up) > 1e-12:
-            out.append((f'C07/{d_or("a")}/pooled-does-not-attain-upper/{m}', 'mean compare(pool_rdm(data), data) differs from the upper bound',
-                        _case(rec, upper=up, attained=att)))
+    if singleton and m in OPT:
+        if api == 'boot':
+            att = float(np.mean(compare(pooled, rd, method=m)))
+            if abs(att - up) > 1e-12:
+                out.append((f'C07/{d_or("a")}/pooled-does-not-attain-upper/{m}', 'mean compare(pool_rdm(data), data) differs from the upper bound',
+                            _case(rec, upper=up, attained=att)))
         C = [to_float(c) for c in cands]
         ntlc = len(C)
         C += [val[r].copy() for r in range(nr)]
@@ -205,25 +200,58 @@ def check_stack(rec, cands, xfs, nc, rng, n_random=200, flavour=('list', 'int'))
             c = np.array(c)
             c[miss] = np.nan
             C.append(c)
+        if api == 'cv':
+            # the per-fold optimum embedded in a full RDM (other entries from the overall pooled RDM), +- eps
+            for f in rec['loo']:
+                c = pv.copy()
+                c[at(f)] = k_pool(f['ustat'])
+                C.append(c)
+                for k in at(f):
+                    for sgn in (1, -1):
+                        c2 = c.copy()
+                        c2[k] += sgn * 1e-3 * scale
+                        C.append(c2)
         C = np.array(C)
-        sc = compare(RDMs(C), rd, method=m).mean(axis=1)
         n_eval += len(C)
         stats['n_cand'] = len(C)
-        j = int(np.argmax(sc))
-        stats['margin'] = float(sc[j] - up)
-        if sc[j] > up + TOL:
-            src = 'grid' if j < ntlc else 'harness'
-            out.append((f'C07/{d_or("a")}/candidate-beats-upper/{m}', f'a candidate RDM ({src}) scores above the upper noise ceiling',
-                        _case(rec, upper=up, candidate=C[j].tolist(), score=float(sc[j]))))
+        if api == 'boot':
+            sc = compare(RDMs(C), rd, method=m).mean(axis=1)
+            j = int(np.argmax(sc))
+            stats['margin'] = float(sc[j] - up)
+            if sc[j] > up + TOL:
+                srcn = 'grid' if j < ntlc else 'harness'
+                out.append((f'C07/{d_or("a")}/candidate-beats-upper/{m}', f'a candidate RDM ({srcn}) scores above the upper noise ceiling',
+                            _case(rec, upper=up, candidate=C[j].tolist(), score=float(sc[j]))))
+        else:
+            # cross-validation: the upper PREDICTION of a fold is the best single RDM for ALL data RDMs at the test
+            # conditions of that fold; a candidate is cut to the test conditions exactly as a model prediction would be.
+            # (The reported bound scores that prediction against the test RDMs only, so it is not itself a maximum.)
+            Cob = make_rdms(C, nc, flavour)
+            byp = rec['case']['byP'] or 'index'
+            items = assemble(tap, label_tokens)
+            if len(items) != 2 * len(test_set):
+                out.append((f'C07/b/cv/protocol', 'cv_noise_ceiling does not compare two predictions per fold', _case(rec, n_compare=len(items))))
+            else:
+                for f, t in enumerate(test_set):
+                    pair = items[2 * f:2 * f + 2]
+                    upi = max(pair, key=lambda it: max((len(o) for o in it['opts']), default=0))
+                    allf = rd.subsample_pattern(byp, t[1])
+                    s_up = float(np.mean(compare(upi['a']['vec'], allf, method=m)))
+                    sc = compare(Cob.subsample_pattern(byp, t[1]), allf, method=m).mean(axis=1)
+                    j = int(np.argmax(sc))
+                    stats['margin'] = max(stats['margin'], float(sc[j] - s_up))
+                    if sc[j] > s_up + TOL:
+                        srcn = 'grid' if j < ntlc else 'harness'
+                        out.append((f'C07/{d_or("a")}/cv_noise_ceiling/candidate-beats-upper-prediction/{m}',
+                                    f'a candidate RDM ({srcn}) is more similar to the data RDMs at the test conditions than the upper prediction of the fold',
+                                    _case(rec, fold=f, upper_prediction=upi['a']['vec'][0].tolist(), its_score=s_up,
+                                          candidate=C[j].tolist(), score=float(sc[j]))))
     # ---- c: lower <= upper
     if singleton and m in ORD:
         stats['lo_minus_up'] = lo - up
         if lo > up + TOL:
-            where = '' if api == 'boot' else \
-                ('cv_noise_ceiling/pattern-subset/' if any(len(f['tt']) < L for f in rec['loo']) else 'cv_noise_ceiling/all-conditions/')
-            # cross-validation on a subset of the conditions: one mechanism (pool on all conditions, then cut) for
-            # every method, hence one key; everywhere else the method is part of the class
-            key = f'C07/c/{where}lower-above-upper' if 'pattern-subset' in where else f'C07/{d_or("c")}/{where}lower-above-upper/{m}'
+            where = '' if api == 'boot' else 'cv_noise_ceiling/'
+            key = f'C07/{d_or("c")}/{where}lower-above-upper/{m}'
             out.append((key, 'lower noise ceiling exceeds the upper one',
                         _case(rec, lower=lo, upper=up, api=api, fold_case=rec.get('case'))))
     # ---- e: invariance to per-RDM positive rescaling (cosine type) / affine maps (correlation type)
@@ -361,13 +389,13 @@ def _toks(ob_abs):
 
 
 def _expected(rec):
-    up_deps = frozenset(rec['upDeps'])
+    """per fold: (deps of the lower prediction, test tokens), (deps of the upper prediction, test tokens)"""
     expect = []
     for F in rec['folds']:
         t = _toks(F['test'])
         expect.append((frozenset(F['predDeps']), t))
-        expect.append((up_deps, t))
-    return expect, up_deps
+        expect.append((frozenset(F['upDeps']), t))
+    return expect, [frozenset(F['upDeps']) for F in rec['folds']]
 
 
 def _protocol(rec, items, lo, up, api, case):
@@ -385,11 +413,15 @@ def _protocol(rec, items, lo, up, api, case):
         for i in left:
             it = items[i]
             for gdeps in it['opts']:
-                if rec['splitsR'] and gdeps != up_deps and gdeps & it['test']:
+                if any(it['test'] == _toks(F['test']) and gdeps > frozenset(F['upDeps']) for F in folds):
+                    key = 'upper-pooled-beyond-test-conditions' if key == 'protocol' else key
+                elif rec['splitsR'] and gdeps not in up_deps and gdeps & it['test']:
                     key = 'prediction-uses-left-out-group'
-                elif key == 'protocol' and gdeps != up_deps and \
+                elif key == 'protocol' and gdeps not in up_deps and \
                         any(it['test'] == _toks(F['test']) and not gdeps <= frozenset(F['predDeps']) for F in folds):
                     key = 'prediction-not-from-training-rdms-at-test-conditions'
+                elif key == 'protocol' and any(it['test'] == _toks(F['test']) and gdeps > frozenset(F['upDeps']) for F in folds):
+                    key = 'upper-pooled-beyond-test-conditions'
         out.append((f'C07/b/{api}/{key}', 'what was pooled / compared differs from the leave-one-out protocol of the specification',
                     dict(case, got=[[[sorted(o) for o in it['opts']], sorted(it['test'])] for it in items],
                          spec=[[sorted(x[0]), sorted(x[1])] for x in expect])))
@@ -455,7 +487,19 @@ def check_proto(rec, const, flavour, method, seed):
     key_of = (lambda k: 100 * k[0] + 10 * k[1] + k[2])
     for f, F in enumerate(folds):
         deps = frozenset(F['predDeps'])
-        if deps == up_deps:
+        # the upper prediction of the fold: entries outside (all RDMs x test conditions) must not move it
+        alt = {k: (v if key_of(k) in up_deps[f] else v * 1.4) for k, v in base.items()}
+        if alt != base and got[2 * f + 1] is not None:
+            _, _, its_ = run(alt)
+            g_, _l = assign(its_, expect)
+            n_eval += 1
+            u0 = its[got[2 * f + 1]]['a']['vec']
+            u1 = None if g_[2 * f + 1] is None else its_[g_[2 * f + 1]]['a']['vec']
+            if u1 is None or not np.array_equal(u0, u1, equal_nan=True):
+                out.append((f'C07/a/{api}/upper-depends-on-untested-conditions',
+                            'altering entries outside the test conditions changes the upper prediction of the fold',
+                            dict(case, fold=f)))
+        if deps == up_deps[f]:
             continue
         if rec['splitsR']:
             te_rows = set(F['test']['rows'])
@@ -568,7 +612,12 @@ def record_trace(seed, const, kind):
         with Tap() as tap:
             lo, up = boot_noise_ceiling(src, method=meth, rdm_descriptor=by)
     col = {'index': a['ridx'], 'subj': rows, 'grp': [S.grp(r) for r in rows]}[by]
-    hdr['single'] = bool(hdr['api'] == 'boot' and len(set(col)) == len(col) and len(col) > 1)
+    if hdr['api'] == 'boot':
+        hdr['single'] = bool(len(set(col)) == len(col) and len(col) > 1)
+    else:
+        # every fold tests one RDM against the pool of all the others
+        hdr['single'] = bool(hdr['splits'] and all(len(f['test']) == 1 and len(f['ceil']) == len(rows) - 1 for f in hdr['folds']))
+        hdr['ordered'] = hdr['single']
     hdr['exact'] = bool(kind == 'boot-val' and hdr['single'])
     items = assemble(tap, tokens_of)
     if len(items) % 2 or any(not it['opts'] for it in items):
@@ -584,7 +633,7 @@ def record_trace(seed, const, kind):
         p, q = items[k], items[k + 1]
         if p['test'] != q['test']:
             return {'hdr': hdr, 'ev': [], 'error': 'compare-calls-not-paired'}
-        if p['deps'] == all_tok and q['deps'] != all_tok:
+        if p['deps'] > q['deps']:          # the upper prediction pools a superset of the lower one's entries
             p, q = q, p
         ev.append({'op': 'fold', 'predDeps': sorted(p['deps']), 'upDeps': sorted(q['deps']),
                    'predPats': p['a']['conds'], 'upPats': q['a']['conds'], 'testPats': p['b']['conds'],
@@ -592,7 +641,7 @@ def record_trace(seed, const, kind):
                    'up8': int(round(float(np.mean(q['out'])) * K8))})
     ev.append({'op': 'ret', 'lo8': int(round(lo * K8)), 'up8': int(round(up * K8)),
                'lo6': int(round(lo * K6)), 'up6': int(round(up * K6))})
-    if hdr['single'] and meth in OPT:
+    if hdr['single'] and meth in OPT and hdr['api'] == 'boot':
         # candidates scored by the implementation
         vec = src.get_vectors()
         C = np.vstack([vec, rng.uniform(0, 10, size=(12, vec.shape[1])),
